@@ -11,6 +11,7 @@ import (
 	"fmt"
 	"math/rand"
 	"os"
+	"strings"
 
 	"github.com/regclient/regclient/types/ref"
 	"github.com/regclient/regclient/zzverif/vtrace"
@@ -35,8 +36,20 @@ func b2i(b bool) int {
 
 // record everything the laws talk about for a string given to ref.New
 func parseAll(ev map[string]any, s string) bool {
+	// parsing is a function of the string alone: the sibling of the string under the other scheme (the same
+	// text with / without a layout scheme in front) is parsed first, and the string itself is parsed twice
+	sib := "ocidir://" + s
+	if t, ok := strings.CutPrefix(s, "ocidir://"); ok {
+		sib = t
+	} else if t, ok := strings.CutPrefix(s, "ocifile://"); ok {
+		sib = t
+	}
+	_, _ = ref.New(sib)
 	r, err := ref.New(s)
 	ev["ok"] = b2i(err == nil)
+	_, _ = ref.New(sib)
+	r3, err3 := ref.New(s)
+	ev["again"] = b2i((err3 == nil) == (err == nil) && (err != nil || r3 == r))
 	if err != nil {
 		return false
 	}
